@@ -173,7 +173,8 @@ def u_read_message(c):
         # an interim (1xx) response: the final response is read and reported by the recursive call, the outer activation adds nothing (F-53: it used to read a "body" and finish again)
         c.oblige("after-an-interim-response-the-outer-activation-neither-finishes-nor-closes-the-delegate-and-returns-the-inner-result", g["finish"] + g["close"] == 0 and (not out.returned or out.value is True))
     c.oblige("never-both-never-twice", g["finish"] <= 1 and g["close"] <= 1 and g["finish"] + g["close"] <= 1 and g["headers"] <= 1)
-    c.oblige("no-notification-without-headers", g["headers"] == 1 or g["finish"] + g["close"] == 0)
+    # (server side: a delegate that never got headers hears nothing; the client's delegate is waiting for the response and is told when the connection is given up - F-55)
+    c.oblige("no-notification-without-headers", g["headers"] == 1 or g["finish"] + g["close"] == 0 or (is_client and g["finish"] == 0 and g["close"] == 1))
     c.oblige("finish-only-after-the-whole-body", g["finish"] == 0 or g["body_done"] or status in (304,) or (is_client and conn._request_start_line.method == "HEAD") or bool(nested))
     c.oblige("finish-never-after-withheld-body-data", g["finish"] == 0 or not g.get("withheld", False))
     c.oblige("callbacks-cleared-on-every-exit", ("clear_callbacks",) in log)
